@@ -59,6 +59,12 @@ var slotTypes = map[string][2]string{
 	"tr": {"rbmap", "prbounds"},
 }
 
+// which slots are optional (MCMethods in spec/jsonrpc/MCJsonRpc.tla)
+var slotOptional = map[string][2]bool{
+	"ts": {false, true}, "tp": {true, true}, "tl": {false, true}, "tc": {false, true}, "tq": {true, true},
+	"te": {false, true}, "tr": {false, true},
+}
+
 var goTypes = map[string]reflect.Type{
 	"tstruct":    reflect.TypeOf(tStruct{}),
 	"ptstruct":   reflect.TypeOf((*tStruct)(nil)),
@@ -83,6 +89,27 @@ var classOf = map[string]string{
 }
 
 func isTyped(m string) bool { _, ok := slotTypes[m]; return ok }
+
+// nullForRequiredPointer: the class of the first REQUIRED pointer slot the entry gives a JSON null for ("" if none)
+func nullForRequiredPointer(e absEntry) string {
+	st, ok := slotTypes[e.Meth]
+	if !ok {
+		return ""
+	}
+	toks := []string{"-", "-"}
+	switch e.Params.K {
+	case "pos":
+		copy(toks, e.Params.Pos)
+	case "named":
+		toks[0], toks[1] = e.Params.A, e.Params.B
+	}
+	for j, t := range toks {
+		if t == "nul" && !slotOptional[e.Meth][j] && goTypes[st[j]].Kind() == reflect.Pointer {
+			return classOf[st[j]]
+		}
+	}
+	return ""
+}
 
 // ---------------------------------------------------------------------------- canonical texts
 
